@@ -252,17 +252,22 @@ def tiles_match(real, ref, fmt, levels, maxabs):
     return None
 
 
-def list_tiles(d, fmt):
+def list_tiles(d, fmt, scheme="L/Y/YX"):
+    import re
     found = set()
     for root, _dirs, files in os.walk(d):
         for f in files:
             if f.endswith("." + fmt):
                 rel = os.path.relpath(os.path.join(root, f), d).split(os.sep)
-                if len(rel) == 3:
+                if scheme == "L/Y/YX" and len(rel) == 3 and rel[0].isdigit():
                     n = int(rel[0])
                     y = int(rel[1])
                     x = int(rel[2].split("_")[1].split(".")[0])
                     found.add(Pos(n, x, y))
+                elif scheme == "LXY" and len(rel) == 1:
+                    m = re.fullmatch(r"L(\d+)X(\d+)Y(\d+)\.[A-Za-z0-9]+", rel[0])
+                    if m:
+                        found.add(Pos(int(m.group(1)), int(m.group(2)), int(m.group(3))))
     return found
 
 
@@ -276,6 +281,7 @@ def run_core(ch, env, prop):
     seed = ch.draw(1 << 16, kind="content_seed")
     use_filter = ch.draw(4, kind="use_filter") == 3
     via_builder = c14 and ch.draw(2, kind="via_builder") == 1
+    scheme = ("L/Y/YX", "LXY")[ch.draw(2, p0=0.75, kind="scheme")]
     rng = np.random.RandomState(seed)
     leaves = {}
     allpos = [Pos(start, x, y) for y in range(2 ** start) for x in range(2 ** start)]
@@ -301,7 +307,7 @@ def run_core(ch, env, prop):
         maxabs = max(float(np.nanmax(np.abs(a.astype(np.float64)))) for a in leaves.values())
 
     d = env.fresh_dir()
-    pio = PyramidIO(d, default_format=fmt)
+    pio = PyramidIO(d, scheme=scheme, default_format=fmt)
     for p, a in leaves.items():
         pio.write_image(p, Image.from_array(a.copy()))
     # stale parents where at least one child tile will exist
@@ -339,7 +345,7 @@ def run_core(ch, env, prop):
     sparse = any(sum(1 for c in pos_children(pp) if c in have) < 4 for pp in ref)
     res = {"config": {"format": fmt, "mode": mode, "start": start, "workers": workers, "n_leaves": len(leaves),
                       "leaves": sorted(tuple(p) for p in leaves)[:24], "n_stale": n_stale, "filter": use_filter,
-                      "via_builder": via_builder, "content_seed": seed, "n_parents_expected": len(ref)},
+                      "via_builder": via_builder, "content_seed": seed, "n_parents_expected": len(ref), "scheme": scheme},
            "extra": {"combo_%s_%s" % (fmt, mode): 1, "workers_%d" % workers: 1, "start_%d" % start: 1},
            "probes": {"stale_parent_planted": n_stale, "sparse_parent": int(sparse), "with_filter": int(use_filter),
                       "parallel_runs": int(workers > 1),
@@ -381,7 +387,7 @@ def run_core(ch, env, prop):
         res["violation"] = viol(prop, "worker-traceback", "%s: a worker failed: %s" % (what, sim.stderr[0][-800:]))
         return res
 
-    on_disk = list_tiles(d, fmt)
+    on_disk = list_tiles(d, fmt, scheme)
     above = {p for p in on_disk if p.n < start}
     if not c14:
         if above != set(ref):
